@@ -20,6 +20,8 @@ for d in sorted(glob.glob(os.path.join(V, "seeded", "*"))):
     if m.get("detected_by_check"):
         fo = ", ".join("`%s`" % x.split("/", 1)[1] for x in (m.get("failing_obligations") or [])[:2])
         verdict = "caught" + (" (after strengthening: %s)" % NOTES[sid]["after"] if NOTES.get(sid, {}).get("after") else "")
+        if NOTES.get(sid, {}).get("note"):
+            verdict += " — " + NOTES[sid]["note"]
     else:
         fo = NOTES.get(sid, {}).get("why_missed", "–")
         verdict = "**missed**"
